@@ -294,6 +294,53 @@ def cache_effects(repo):
     return out, {k: v for k, v in module_state.items() if v}
 
 
+def excel_requireds(repo):
+    """the `excel_requireds` literal of load_pump_excel.py and the exception classes the validator converts"""
+    src = open(os.path.join(repo, 'DHLLDV_viewer/load_pump_excel.py')).read()
+    tree = ast.parse(src)
+    req = None
+    for n in tree.body:
+        if isinstance(n, ast.Assign) and isinstance(n.targets[0], ast.Name) and n.targets[0].id == 'excel_requireds':
+            req = n.value
+    if req is None:
+        raise SystemExit('effects: cannot find excel_requireds in load_pump_excel.py')
+    out = []
+    for k, v in zip(req.keys, req.values):
+        t = ast.literal_eval(k)
+        required, scalars, tables = False, [], []
+        for fk, fv in zip(v.keys, v.values):
+            name = ast.literal_eval(fk)
+            if name == 'required':
+                required = ast.literal_eval(fv)
+            elif isinstance(fv, ast.Name):
+                scalars.append((name, fv.id == 'float'))
+            elif isinstance(fv, ast.Dict):
+                cols = []
+                for ck in fv.keys:
+                    c = ast.literal_eval(ck)
+                    cols.append(list(c) if isinstance(c, tuple) else [c])
+                tables.append((name, cols))
+            else:
+                raise SystemExit(f'effects: cannot read excel_requireds[{t}][{name}]')
+        out.append((t, required, scalars, tables))
+    # exception classes caught around the scalar lookup and the table lookup in validate_excel_fields
+    caught = {'scalar': [], 'table': []}
+    fn = next(n for n in tree.body if isinstance(n, ast.FunctionDef) and n.name == 'validate_excel_fields')
+    for x in ast.walk(fn):
+        if isinstance(x, ast.Try):
+            kind = 'scalar' if 'get_range_value' in ast.unparse(x.body[0]) else 'table'
+            for h in x.handlers:
+                t = h.type
+                names = [e.id for e in t.elts] if isinstance(t, ast.Tuple) else [t.id]
+                caught[kind] += names
+    load_src = ast.unparse(next(n for n in tree.body if isinstance(n, ast.FunctionDef) and n.name == 'load_pipeline_from_workbook'))
+    pump_src = ast.unparse(next(n for n in tree.body if isinstance(n, ast.FunctionDef) and n.name == 'load_pump_from_worksheet'))
+    facts = {'dangling_pump_checked': 'not in pumps' in load_src and 'InvalidExcelError' in load_src,
+             'curve_without_driver_checked': "== 'curve'" in pump_src and 'InvalidExcelError' in pump_src,
+             'validate_called_first': load_src.split('\n')[2].strip().startswith('validate_excel(wb)') or 'validate_excel(wb)' in load_src.split('pipesheet_id')[0]}
+    return out, caught, facts
+
+
 def lean_str_list(xs):
     return '[' + ', '.join(json.dumps(x) for x in xs) + ']'
 
@@ -319,10 +366,25 @@ def main(repo, outdir):
     lines.append(']')
     lines.append(f'def hiddenModuleState : List String := {lean_str_list([m + "." + n for m, ns in sorted(module_state.items()) for n in ns])}')
     lines.append('')
+    req, caught, facts = excel_requireds(repo)
+    lines.append('/-- excel_requireds: (sheet type, required, scalar fields (name, numeric?), tables (name, columns as lists of substrings)) -/')
+    lines.append('def excelRequireds : List (String × Bool × List (String × Bool) × List (String × List (List String))) := [')
+    rows = []
+    for t, required, scalars, tables in req:
+        sc = '[' + ', '.join(f'({json.dumps(n)}, {"true" if f else "false"})' for n, f in scalars) + ']'
+        tb = '[' + ', '.join(f'({json.dumps(n)}, [' + ', '.join(lean_str_list(c) for c in cols) + '])' for n, cols in tables) + ']'
+        rows.append(f'  ({json.dumps(t)}, {"true" if required else "false"}, {sc}, {tb})')
+    lines.append(',\n'.join(rows))
+    lines.append(']')
+    lines.append(f'def excelScalarLookupCatches : List String := {lean_str_list(caught["scalar"])}')
+    lines.append(f'def excelTableLookupCatches : List String := {lean_str_list(caught["table"])}')
+    for k, v in facts.items():
+        lines.append(f'def excel_{k} : Bool := {"true" if v else "false"}')
+    lines.append('')
     lines.append('end Effects')
     text = '\n'.join(lines) + '\n'
     path = os.path.join(outdir, 'Effects.lean')
     if not (os.path.exists(path) and open(path).read() == text):
         open(path, 'w').write(text)
-    json.dump({'slurry': fx, 'caches': caches, 'module_state': module_state}, open(os.path.join(outdir, 'effects.json'), 'w'), indent=1, sort_keys=True)
+    json.dump({'slurry': fx, 'caches': caches, 'module_state': module_state, 'excel_requireds': req, 'excel_caught': caught, 'excel_facts': facts}, open(os.path.join(outdir, 'effects.json'), 'w'), indent=1, sort_keys=True)
     print('effects: extracted', len(fx['raises']), 'setters,', sum(1 for c in caches if c['cached']), 'cached functions')
